@@ -87,8 +87,12 @@ class _ApplicationWithoutMeanOperator(EndomorphicOperator):
 
     def apply(self, x, mode):
         self._check_input(x, mode)
-        mean = x.s_mean()
-        return mean + self._op.apply(x - mean, mode)
+        if mode == self.TIMES:
+            mean = x.s_mean()
+            return mean + self._op.apply(x - mean, mode)
+        # adjoint of P + op (1 - P), with P the (self-adjoint) mean projector
+        res = self._op.apply(x, mode)
+        return res - res.s_mean() + x.s_mean()
 
     def __repr__(self):
         from ..utilities import indent
